@@ -1,6 +1,7 @@
 import Rtsp.Model.ClientSm
 import Rtsp.Proofs.ClientSm.Main
 import Rtsp.Proofs.ClientSm.NonNil
+import Rtsp.Proofs.ClientSm.SilentMain
 /-
 C12 — the client survives hostile servers: theorems about the client control model
 (Model/ClientSm.lean).  Server behaviour is the input (events); every statement quantifies over all
@@ -405,5 +406,35 @@ example :
                     conn := true, reader := true, baseUrl := true, optionsSent := true, chans := [(0, 0)] }
     waiting (step {} s (.liveness false false)) = true ∧
     (step {} s (.liveness false false)).out.length = 4 := by decide
+
+/-! ### every_call_returns, part 3: a silent server — two timeouts end any wait, unconditionally -/
+
+/-- In every reachable state the call stack is well formed: at most one `reset` is in progress, it sits
+directly under the frames of its TEARDOWN's implicit OPTIONS, and every other frame sits on a stack
+without reset frames. -/
+theorem reachable_stack_wellformed (c : Cfg) (es : List Ev) : WFs (run c init es) :=
+  run_wfs c es init trivial
+
+/-- **two_timeouts_suffice**: from ANY reachable state (whatever the server and the caller did before),
+if the server stays silent, the first firing of the ReadTimeout timer ends the wait or leaves a wait
+with no reset in progress, and the second firing ends the waiting: the run loop is idle or closed,
+the pending API call (if any, see `pending_call_is_kept`) has got its result.  No hypothesis on the
+call stack is needed. -/
+theorem two_timeouts_suffice (c : Cfg) (es : List Ev) :
+    waiting (step c (step c (run c init es) .timer) .timer) = false :=
+  settled_timer c _ (timer_settles c _ (reachable_stack_wellformed c es))
+
+/-- … and when no reset is in progress (in particular: always, for servers that never make the client
+reset, i.e. no redirect and no transport switch) one timeout is enough. -/
+theorem one_timeout_suffices_without_reset (c : Cfg) (s : St) (m : Meth) (n tp : Nat) (k : List Fr)
+    (hc : s.closed = false) (hs : s.stack = .wait m n tp :: k) (hk : Calm1 k) :
+    waiting (step c s .timer) = false := by
+  have : step c s .timer = resume c k { s with mustClose := true } (.err .timeout) :=
+    wait_has_timer c s m n tp k hc hs
+  rw [this]
+  exact resume_err_not_waiting c k hk _ _
+
+example : waiting (step {} (step {} (run {} init [.call .describe]) .timer) .timer) = false :=
+  two_timeouts_suffice {} [.call .describe]
 
 end Rtsp.ClientSm.C12
